@@ -123,7 +123,7 @@ def body(chk, db, cfgname):
         outer = loops[-1]
         bad_exit = None
         for s in shapes:
-            for (e, kind) in s["exits"]:
+            for (e, kind) in list(s["exits"]) + list(s.get("continues", [])):
                 if kind == "continue":
                     # accepted: 'if (spin >= SpinSize(site)) continue;' directly in the site loop
                     efa = at.get(f.cfg.pos1(e), frozenset())
